@@ -238,3 +238,72 @@ func runSmart(c *hlib.Ctx) {
 		}
 	}
 }
+
+// runSmartCorr: SmartSqueeze.Transform against its Lean model (exact mode): the returned
+// JoinedTransform is described member by member (AxisSqueeze / AxisPinch with their fields).
+// Also Mesh.Transform(t.Inverse()) — the vertex map of MarchingCubesConj — on one triangle.
+func runSmartCorr(c *hlib.Ctx) {
+	g := &gen{c: c, dim: 3}
+	for i := 0; i < c.N; i++ {
+		axis := c.Rng.Intn(3)
+		ratio := math.Ldexp(1, -(c.Rng.Intn(3) + 1))
+		prange := float64(c.Rng.Intn(3)+1) / 8
+		ppow := []float64{0.25, 0.5, 2}[c.Rng.Intn(3)]
+		ss := toolbox3d.NewSmartSqueeze(toolbox3d.Axis(axis), ratio, prange, ppow)
+		lo := float64(c.Rng.Intn(17)-8) / 4
+		hi := lo + float64(c.Rng.Intn(24))/4 // may be empty (hi == lo)
+		desc := fmt.Sprintf("%d %s", axis, rsl(ratio, prange, ppow, lo, hi))
+		nu := c.Rng.Intn(4)
+		desc += fmt.Sprintf(" %d", nu)
+		for j := 0; j < nu; j++ {
+			a := lo + float64(c.Rng.Intn(28)-3)/4
+			b := a + float64(c.Rng.Intn(8))/4 // may be empty
+			if c.Rng.Intn(6) == 0 {
+				a, b = b, a // inverted range
+			}
+			ss.AddUnsqueezable(a, b)
+			desc += " " + rsl(a, b)
+		}
+		np := c.Rng.Intn(3)
+		desc += fmt.Sprintf(" %d", np)
+		for j := 0; j < np; j++ {
+			p := lo + float64(c.Rng.Intn(26)-1)/4
+			ss.AddPinch(p)
+			desc += " " + rs(p)
+		}
+		c.Stat(fmt.Sprintf("smartcorr.u%d.p%d", nu, np), 1)
+		var minA, maxA [3]float64
+		minA[axis], maxA[axis] = lo, hi
+		bounds := model3d.NewRect(model3d.NewCoord3DArray(minA), model3d.NewCoord3DArray(maxA))
+		c.Emit("c05 smart "+desc, guardPanic(func() string {
+			t := ss.Transform(bounds)
+			j, ok := t.(model3d.JoinedTransform)
+			if !ok {
+				return fmt.Sprintf("unknown:%T", t)
+			}
+			res := fmt.Sprintf("J %d", len(j))
+			for _, m := range j {
+				switch m := m.(type) {
+				case *toolbox3d.AxisSqueeze:
+					res += fmt.Sprintf(" Q %d %s", int(m.Axis), rsl(m.Min, m.Max, m.Ratio))
+				case *toolbox3d.AxisPinch:
+					res += fmt.Sprintf(" P %d %s", int(m.Axis), rsl(m.Min, m.Max, m.Power))
+				default:
+					res += fmt.Sprintf(" unknown:%T", m)
+				}
+			}
+			return res
+		}))
+
+		x := g.transform(false, 0)
+		t := x.build3()
+		tri := &model3d.Triangle{g.p3(), g.p3(), g.p3()}
+		mesh := model3d.NewMesh()
+		mesh.Add(tri)
+		out := mesh.Transform(t.Inverse())
+		var got *model3d.Triangle
+		out.Iterate(func(u *model3d.Triangle) { got = u })
+		c.Emit(fmt.Sprintf("c05 meshxf3 %s %s %s %s", x.tokens(3), p3s(tri[0]), p3s(tri[1]), p3s(tri[2])),
+			p3s(got[0])+" "+p3s(got[1])+" "+p3s(got[2]))
+	}
+}
